@@ -151,6 +151,7 @@ class DriverLoop(loopcut.LoopContract):
         c.patience_count = env.scalar('count_h', nonneg=True, regimes=('zero', 'generic'))[0]
         c._continual = True if bool(c.steps < c.max_steps) and bool(env.scalar('cont_h', regimes=('generic',))[0] > 0) else False
         self.steps_at_head = c.steps
+        self.cont_at_head = c._continual
         self.calls = 0
         if self.on_enter: self.on_enter()
     def back(self, frame):
@@ -166,6 +167,9 @@ def count_calls(lc, ctrl):
     real = ctrl.step
     def step(*a, **k):
         lc.calls += 1
+        # "once false it stays false until reset": a driver must not make another step (an optimizer / LQR / ICP iteration and a controller
+        # step) after the controller has said stop - also not as the first action of a later call of the driver
+        lc.env.holds('the driver steps only while the controller says continue', bool(getattr(lc, 'cont_at_head', True)))
         return real(*a, **k)
     ctrl.step = step
 
@@ -206,6 +210,9 @@ def _optimize_numeric(env):
     s.optimize(input=None)
     env.holds('iterations_within_budget', it[0] <= M)
     env.holds('exit_only_when_not_continual', not s.continual())
+    n1 = it[0]
+    s.optimize(input=None)          # the controller has said stop and was not reset: a second call of the driver makes no step
+    env.holds('the driver steps only while the controller says continue', it[0] == n1)
 
 
 @obligation('C20.MPC.forward.loop', functions=['pypose.module.mpc:MPC.forward'], max_paths=64,
